@@ -25,8 +25,8 @@
 (* DRIFT (never a verdict); the rest of a drifted run is skipped.                                *)
 EXTENDS Once, TraceLib
 
-VARIABLES l, drift, live
-tv == <<l, drift, live>>
+VARIABLES l, drift, nd, live    \* position, recorded drifts (bounded list), number of drifts, run still being followed
+tv == <<l, drift, nd, live>>
 
 XReset ==
     /\ kind' = "once" /\ fnst' = <<>> /\ fnval' = <<>> /\ cst' = <<>> /\ cinfo' = <<>>
@@ -41,7 +41,7 @@ XReset ==
     /\ joined' = [c \in Callers |-> 0]
     /\ cctx' = {}
 
-TInit == Init /\ l = 1 /\ drift = <<>> /\ live = TRUE
+TInit == Init /\ l = 1 /\ drift = <<>> /\ nd = 0 /\ live = TRUE
 
 Pre(lbl, s) == Len(lbl) > Len(s) /\ SubSeq(lbl, 1, Len(s)) = s
 Kind(lbl) == IF Pre(lbl, "call:c") THEN "call"
@@ -96,11 +96,14 @@ AwRet(c, res, v) ==
     \/ (res = "canceled" /\ AwCtx(c))
 
 -----------------------------------------------------------------------------
-Fin == UNCHANGED <<vars, drift, live>> /\ l' = l + 1
-Adv == UNCHANGED <<drift, live>> /\ l' = l + 1
+Fin == UNCHANGED <<vars, drift, nd, live>> /\ l' = l + 1
+Adv == UNCHANGED <<drift, nd, live>> /\ l' = l + 1
 
+\* every drift is counted; only the first MaxRecords are kept (the list is part of every later state)
+MaxRecords == 50
 Drift(why) ==
-    /\ drift' = Append(drift, [run |-> Trace[l].run, seq |-> Trace[l].seq, why |-> why])
+    /\ drift' = IF Len(drift) < MaxRecords THEN Append(drift, [run |-> Trace[l].run, seq |-> Trace[l].seq, why |-> why]) ELSE drift
+    /\ nd' = nd + 1
     /\ live' = FALSE
     /\ l' = l + 1
     /\ UNCHANGED vars
@@ -108,8 +111,8 @@ Drift(why) ==
 TStep ==
     /\ l <= Len(Trace)
     /\ LET e == Trace[l] IN
-       CASE e.ev = "reset" -> XReset /\ l' = l + 1 /\ live' = TRUE /\ UNCHANGED drift
-         [] ~live -> UNCHANGED <<vars, drift, live>> /\ l' = l + 1
+       CASE e.ev = "reset" -> XReset /\ l' = l + 1 /\ live' = TRUE /\ UNCHANGED <<drift, nd>>
+         [] ~live -> UNCHANGED <<vars, drift, nd, live>> /\ l' = l + 1
          [] e.ev = "init" ->
               IF e.kind = "once" THEN Fin ELSE Drift("the scenario of the run is not the scenario of the spec")
          [] e.ev = "step" ->
@@ -135,14 +138,14 @@ TStep ==
          [] e.ev = "quiet" ->
               IF LibQuiet /\ BlockedIds = SeqToSet(e.xblk) THEN Fin ELSE Drift("quiescent observation differs")
          [] e.ev = "panic" -> Drift("panic out of the library")
-         [] e.ev = "teardown" -> UNCHANGED <<vars, drift>> /\ live' = FALSE /\ l' = l + 1
+         [] e.ev = "teardown" -> UNCHANGED <<vars, drift, nd>> /\ live' = FALSE /\ l' = l + 1
          [] OTHER -> Fin
 
 TFinish ==
     /\ l = Len(Trace) + 1
-    /\ JsonSerialize(IOEnv.VERDICT_FILE, [drift |-> drift, consumed |-> Len(Trace), total |-> Len(Trace)])
+    /\ JsonSerialize(IOEnv.VERDICT_FILE, [drift |-> drift, ndrift |-> nd, consumed |-> Len(Trace), total |-> Len(Trace)])
     /\ l' = l + 1
-    /\ UNCHANGED <<vars, drift, live>>
+    /\ UNCHANGED <<vars, drift, nd, live>>
 
 TNext == TStep \/ TFinish
 =============================================================================
